@@ -8,10 +8,12 @@ mod c03;
 mod c05;
 mod c06;
 mod c07;
+mod c08;
 mod c09;
 mod c10;
 mod c11;
 mod c12;
+mod c13;
 mod c15;
 mod gallina;
 mod impls;
@@ -89,10 +91,12 @@ fn main() {
         "c05" => c05::run(&ctx),
         "c06" => c06::run(&ctx),
         "c07" => c07::run(&ctx),
+        "c08" => c08::run(&ctx),
         "c09" => c09::run(&ctx),
         "c10" => c10::run(&ctx),
         "c11" => c11::run(&ctx),
         "c12" => c12::run(&ctx),
+        "c13" => c13::run(&ctx),
         "c15" => c15::run(&ctx),
         other => {
             eprintln!("unknown property {other}");
